@@ -26,6 +26,9 @@ def one(job):
         # the key log holds `RSA <client_random> <pre-master secret>` lines instead of CLIENT_RANDOM lines (up to TLS 1.2)
         shapes = [dict(e2e.random_shape(rng, v), rsa_line=True) for _, v, _ in combos]
         sc = e2e.Scenario(rng, combos, shapes=shapes)
+    elif len(job) > 2 and job[2] == "wrap":
+        # TCP sequence numbers that pass 2^32 inside the connection, records cut into small segments
+        sc = e2e.Scenario(rng, combos, isn="wrap", cut=gen_tls_cut(rng))
     elif len(job) > 2:      # a long history of tiny records: sequence numbers, RC4 position and CBC residue far from zero
         app = [[(rng.randrange(2), rng.randbytes(rng.randrange(0, 4))) for _ in range(rng.randrange(270, 400))]]
         sc = e2e.Scenario(rng, combos, app=app)
@@ -36,6 +39,12 @@ def one(job):
         return [(-1, r.signature())], sc.describe(), sc.replay_blob()
     probs = e2e.compare_export([c for _, c, _ in sc.parts], sc.truths, r.out)
     return probs, sc.describe(), (sc.replay_blob() if probs else None)
+
+
+def gen_tls_cut(rng):
+    """small segments (every record spans several), sizes drawn per connection"""
+    import gen_tls
+    return gen_tls.cut_mss(rng.choice((23, 61, 100, 160)))
 
 
 def jobs_for(ctx, scale=1):
@@ -57,6 +66,8 @@ def jobs_for(ctx, scale=1):
             jobs.append((rng.getrandbits(48), [e2e.random_combo(rng)]))
         for _ in range(3 * scale):
             jobs.append((rng.getrandbits(48), [e2e.random_combo(rng)], "long"))
+    for _ in range((4 if not ctx.thorough() else 60) * scale):
+        jobs.append((rng.getrandbits(48), [e2e.random_combo(rng)], "wrap"))
     legacy = [c for c in combos if c[1] != "tls13"]
     for v, sha384 in (("ssl3", 0), ("tls10", 0), ("tls11", 0), ("tls12", 0), ("tls12", 1)):      # pre-master lines: every version up to TLS 1.2
         pool = [c for c in legacy if c[1] == v]
